@@ -513,12 +513,12 @@ def expand_eq(st, seed):
     val = lambda name, neutral=0: _q(rng.choice([2, 3, -2]) if role in (name, "all") else neutral)
     r = dict(kind="equation", eq=eq, Tmax=st["Tmax"], layout=st["layout"], dim=st["dim"], role=role, src="tlc", U=[], P=[], par={}, pts=[])
     if eq == "burgers":
-        r["U"] = [rpoly(rng, 2, 3, 2, must=1)]
+        r["U"] = [rpoly(rng, 2, 3, 2, must=1) + [dict(c=rng.choice([1, -1, 2]), e=[0, 2])]]      # u_xx never vanishes identically
         r["par"] = dict(nu=val("nu"))
         r["pts"] = [rpoint(rng, 2, True) for _ in range(4)]
     elif eq == "fisher":
         d = st["dim"]
-        r["U"] = [rpoly(rng, 1 + d, 3, 2, must=1)]
+        r["U"] = [rpoly(rng, 1 + d, 3, 2, must=1) + [dict(c=k + 1, e=[2 if i == 1 + k else 0 for i in range(1 + d)]) for k in range(d)]]   # every u_{x_k x_k} is non-zero
         r["par"] = dict(D=val("D"), r=val("r"), g=val("g"))
         r["pts"] = [rpoint(rng, 1 + d, True) for _ in range(4)]
     elif eq == "ou":
@@ -532,7 +532,8 @@ def expand_eq(st, seed):
         r["U"] = [rpoly(rng, 2, 3, 2, must=0), rpoly(rng, 2, 3, 2, must=1)]
         r["pts"] = [rpoint(rng, 2, False) for _ in range(4)]
     elif eq == "ns":
-        r["U"] = [rpoly(rng, 2, 3, 2, must=0), rpoly(rng, 2, 3, 2, must=1)]
+        r["U"] = [rpoly(rng, 2, 3, 2, must=0) + [dict(c=1, e=[2, 0]), dict(c=2, e=[0, 2])],
+                  rpoly(rng, 2, 3, 2, must=1) + [dict(c=-1, e=[2, 0]), dict(c=1, e=[0, 2])]]          # both Laplacians are non-zero
         r["P"] = rpoly(rng, 2, 3, 2, must=0) + [dict(c=2, e=[0, 1])]
         r["par"] = dict(rho=_q(rng.choice([2, 4]) if role in ("rho", "all") else 1), nu=val("nu"))
         r["pts"] = [rpoint(rng, 2, False) for _ in range(4)]
@@ -631,6 +632,10 @@ def expand_fr(st, seed):
         for j in range(R * M):
             if not any(coef[dd][j][1:]):
                 coef[dd][j][1] = rng.choice([-1, 1, 2])
+            if deg >= 2 and coef[dd][j][deg] == 0:          # degree-2 features really are quadratic (second derivatives do not vanish)
+                coef[dd][j][deg] = rng.choice([-1, 1, 2])
+            if coef[dd][j][0] == 0 and deg >= 1:              # ... and have a constant part, so that products keep lower-order terms
+                coef[dd][j][0] = rng.choice([-1, 1])
     xs = []
     for dd in range(d):
         col = []
